@@ -213,6 +213,41 @@ def gen(seed, index):
     return scn
 
 
+def systematic():
+    """One-factor-at-a-time histories, run before the seeded exploration: for every listed property two builds that differ
+    in that property only (every alternative value), for defines / compiler_flags additionally through every supply
+    channel, and the flag properties under every fixed environment.  A repeat of the first build closes each history."""
+    out = []
+
+    def hist(a, b, env=None, mode="Serial", inproc=1):
+        out.append({"seed": 1000 + len(out), "mode": mode, "history": [dict(a), dict(b), dict(a)], "env": env or {},
+                    "inproc": inproc, "races": {}})
+    base = base_cfg()
+    for k in KEYS:
+        if k in ("ch_defines", "ch_flags", "kind"):
+            continue
+        for v in range(1, len(SPACE[k])):
+            a = dict(base)
+            if k == "compiler_language":
+                a["okl"] = 1                  # the language only counts with OKL off
+            if k == "okl_inc":
+                a["okl"] = 0
+            hist(a, dict(a, **{k: v}))
+    for ch in range(1, len(SPACE["ch_defines"])):
+        a = dict(base, ch_defines=ch)
+        hist(a, dict(a, defines=1))
+        a = dict(base, ch_flags=ch)
+        hist(a, dict(a, compiler_flags=1))
+    for env in ENVS[3:]:
+        for k in FLAG_PROPS:
+            hist(base, dict(base, **{k: 1}), env=env)
+    a = dict(base, kind=1)
+    hist(a, dict(a, src=1))
+    hist(a, dict(a, src=1), inproc=3)
+    hist(base, dict(base, defines=1), mode="OpenMP")
+    return out
+
+
 _ref_cache = {}
 
 
@@ -407,7 +442,7 @@ def main(tier):
     ps.ensure_engine()
     ex = pscheck.Explorer(PROP, tier, "exploration", gen, execute, signature, minimise)
     ex.max_minimise = 10
-    ex.report.rule = ("one run = a seeded history of 6-12 builds (each a fresh simulated process, or 2-3 consecutive builds per process) on one cache directory, drawn from "
+    ex.report.rule = ("35 systematic one-factor-at-a-time histories first (two builds that differ in one listed property, every alternative value, every supply channel, every fixed environment); then: one run = a seeded history of 6-12 builds (each a fresh simulated process, or 2-3 consecutive builds per process) on one cache directory, drawn from "
                       "families: single-property variations, value swaps between the three flag properties, equal values in two "
                       "properties, repeats; oracle = isolated empty-cache build of the same configuration + distinct configurations "
                       "never share an entry + repeats hit the cache; non-trivial = history holds >= 2 distinct configurations; "
@@ -419,6 +454,10 @@ def main(tier):
         "configurations that do not build on an empty cache are skipped (not a cache-key matter)",
         "the functions property is populated through OCCA_FUNCTION inside the driver (three fixed lambdas)",
     ]
+    # the systematic histories first (they do not count against the exploration budget)
+    outs = ex.pool.map(pscheck._exec_task, [(execute, sscn) for sscn in systematic()])
+    for sscn, o in zip(systematic(), outs):
+        ex.absorb(sscn, o)
     ex.explore(common.budget(tier, 60, 900))
     return ex.finish({"property_space": {k: len(v) for k, v in SPACE.items()}})
 
